@@ -56,7 +56,7 @@ func (x *Exec) loops(fn *ssa.Function) map[*ssa.BasicBlock]*loopT {
 	return res
 }
 
-const unrollLimit = 5000
+const unrollLimit = 1200
 
 func (x *Exec) loopHeader(st *State, fr *Frame, b *ssa.BasicBlock, prev *ssa.BasicBlock) ([]Out, bool) {
 	li := x.loops(fr.fn)
